@@ -33,6 +33,8 @@ def args_for(unit, failure, tier='quick'):
         return ['c10-resolve']
     if unit == 'U-PATHS':
         return ['c10-paths']
+    if unit == 'U-DESCTEXT':
+        return ['c13-text']
     if unit == 'U-SIMILAR':
         return ['c11-similar']
     if unit == 'U-TYEX':
